@@ -75,6 +75,10 @@ CompileSeq(items, k, acc) ==
              [acc EXCEPT !.labels = IF it.name \in DOMAIN @ THEN @ ELSE (it.name :> Len(acc.code)) @@ @])
       [] it.k = "ins" ->
            CompileSeq(items, k + 1, [acc EXCEPT !.code = Append(@, Entry(it.ast, it.line, it.text, it.textb))])
+      \* it.n lines holding the same instruction, one per line from it.line on (large programs in one item)
+      [] it.k = "fill" ->
+           CompileSeq(items, k + 1,
+             [acc EXCEPT !.code = @ \o [j \in 1 .. it.n |-> Entry(it.ast, it.line + j - 1, it.text, it.textb)]])
       [] it.k = "proc" ->
            LET a1 == [acc EXCEPT !.procs = (it.name :> Len(acc.code)) @@ @]
                a2 == CompileSeq(it.body, 1, a1)
